@@ -1,6 +1,6 @@
 """C07 Safe mode never removes or renames a module's public surface."""
 from pyvc.tables import run_gen
-from contracts import x_safe_preserve, c_preserve_guards, x_has_side_effect
+from contracts import x_safe_preserve, c_preserve_guards, c_rename, x_has_side_effect
 from standins import c07_surface
 
 
@@ -11,7 +11,8 @@ def units():
 def extra(tier, seed):
     both = tier == "thorough"
     return [run_gen("main.format_code/safe", ("C07", "C08"), x_safe_preserve.generate, both),
-            run_gen("core.has_side_effect", ("C07", "C16"), x_has_side_effect.generate, both)]
+            run_gen("core.has_side_effect", ("C07", "C16"), x_has_side_effect.generate, both),
+            run_gen("preserving-rules/refusals", ("C07", "C08"), c_rename.gen_preserve_refusals, tier == "thorough")]
 
 
 def standins(tier, seed):
